@@ -45,7 +45,8 @@ Definition site_model_ok (c : site_case) : bool :=
 
 (* guard of site n on text t *)
 Definition site_safe (n : N) (t : str) : bool :=
-  if n <=? 7 then safe_dq_raw t
+  if n <=? 4 then safe_dq_raw t
+  else if n <=? 7 then safe_dq_block t
   else if n =? 8 then safe_default t
   else if n =? 9 then safe_alias_doc t
   else if n =? 10 then safe_field_comment t
